@@ -7,6 +7,7 @@ import (
 	"go/token"
 	"go/types"
 	"os"
+	"sort"
 	"strings"
 
 	"golang.org/x/tools/go/ssa"
@@ -532,43 +533,152 @@ func ruleDupClass(c *Ctx, rule string) {
 		}
 		return structFieldName(fa.X.Type(), fa.Field)
 	}
+	reach := pkgReach(fn) // AlignTraps and the private helpers it hands the hits to
+	// predEq: the fields that a predicate function finds equal whenever it answers true (a conjunction of
+	// equalities between the same field of its two arguments; anything else gives nothing)
+	predEq := func(f *ssa.Function) map[string]bool {
+		eq := map[string]bool{}
+		if f == nil || f.Blocks == nil {
+			return eq
+		}
+		for _, b := range f.Blocks {
+			for _, ins := range b.Instrs {
+				switch x := ins.(type) {
+				case *ssa.BinOp:
+					fx, fy := fieldLoad(x.X), fieldLoad(x.Y)
+					if x.Op == token.EQL && fx != "" && fx == fy {
+						eq[fx] = true
+					} else if x.Op == token.EQL || x.Op == token.NEQ || x.Op == token.LSS || x.Op == token.GTR || x.Op == token.LEQ || x.Op == token.GEQ {
+						return map[string]bool{}
+					}
+				case *ssa.Phi:
+					for _, e := range x.Edges {
+						if k, ok := e.(*ssa.Const); ok && k.Value != nil && k.Value.String() == "true" {
+							return map[string]bool{} // a disjunction
+						}
+					}
+				case *ssa.Call:
+					return map[string]bool{}
+				}
+			}
+		}
+		return eq
+	}
+	// the function values that reach parameter prm of h at its call sites in reach
+	funcsFor := func(h *ssa.Function, prm *ssa.Parameter) []*ssa.Function {
+		var out []*ssa.Function
+		pi := paramIndex(h, prm)
+		for _, g := range reach {
+			for _, b := range g.Blocks {
+				for _, ins := range b.Instrs {
+					ci, ok := ins.(ssa.CallInstruction)
+					if !ok || ci.Common().StaticCallee() != h || pi < 0 || pi >= len(ci.Common().Args) {
+						continue
+					}
+					v := ci.Common().Args[pi]
+					for d := 0; d < 3; d++ {
+						switch x := v.(type) {
+						case *ssa.ChangeType:
+							v = x.X
+							continue
+						case *ssa.MakeClosure:
+							v = x.Fn
+							continue
+						}
+						break
+					}
+					if f, ok := v.(*ssa.Function); ok {
+						out = append(out, f)
+					} else {
+						out = append(out, nil)
+					}
+				}
+			}
+		}
+		return out
+	}
 	n := 0
-	for _, b := range fn.Blocks {
-		for _, ins := range b.Instrs {
-			st, ok := ins.(*ssa.Store)
-			if !ok {
-				continue
-			}
-			fa, ok := st.Addr.(*ssa.FieldAddr)
-			if !ok || structFieldName(fa.X.Type(), fa.Field) != "Score" {
-				continue
-			}
-			if k, ok := constIntVal(st.Val); !ok || k >= 0 {
-				continue
-			}
-			n++
-			key := fmt.Sprintf("%s/discard#%d", funcName(fn), n)
-			eq := map[string]bool{}
-			for _, bf := range branchesAt(b) {
-				fx, fy := fieldLoad(bf.cond.X), fieldLoad(bf.cond.Y)
-				if fx == "" || fx != fy {
+	for _, h := range reach {
+		for _, b := range h.Blocks {
+			for _, ins := range b.Instrs {
+				st, ok := ins.(*ssa.Store)
+				if !ok {
 					continue
 				}
-				if effectiveOp(bf, true) == token.EQL {
-					eq[fx] = true
+				fa, ok := st.Addr.(*ssa.FieldAddr)
+				if !ok || structFieldName(fa.X.Type(), fa.Field) != "Score" {
+					continue
 				}
-			}
-			switch {
-			case eq["Abpos"] && eq["Bbpos"]:
-				c.ok(rule, key, st.Pos(), "a hit is discarded only when it starts at the same point as the kept one in both sequences")
-			case eq["Aepos"] && eq["Bepos"]:
-				c.ok(rule, key, st.Pos(), "a hit is discarded only when it ends at the same point as the kept one in both sequences")
-			default:
+				if k, ok := constIntVal(st.Val); !ok || k >= 0 {
+					continue
+				}
+				n++
+				c.Funcs[funcName(h)] = true
+				key := fmt.Sprintf("%s/discard#%d", funcName(fn), n)
+				eq := map[string]bool{}
+				// alternatives: one set of established equalities per predicate that may have been passed in
+				var alts []map[string]bool
+				for _, bf := range branchesAt(b) {
+					fx, fy := fieldLoad(bf.cond.X), fieldLoad(bf.cond.Y)
+					if fx != "" && fx == fy && effectiveOp(bf, true) == token.EQL {
+						eq[fx] = true
+					}
+				}
+				// a branch on the answer of a predicate: if shared(&segs[j], &segs[i]) { ... }
+				for d := b.Idom(); d != nil; d = d.Idom() {
+					ifi, ok := d.Instrs[len(d.Instrs)-1].(*ssa.If)
+					if !ok {
+						continue
+					}
+					e := forcedEdge(d, b)
+					cond := ifi.Cond
+					if u, ok := cond.(*ssa.UnOp); ok && u.Op == token.NOT {
+						cond = u.X
+						if e >= 0 {
+							e = 1 - e
+						}
+					}
+					call, ok := cond.(*ssa.Call)
+					if !ok || e != 0 {
+						continue
+					}
+					var preds []*ssa.Function
+					if prm, ok := call.Call.Value.(*ssa.Parameter); ok {
+						preds = funcsFor(h, prm)
+					} else if sf := call.Call.StaticCallee(); sf != nil {
+						preds = []*ssa.Function{sf}
+					}
+					for _, pf := range preds {
+						alts = append(alts, predEq(pf))
+					}
+				}
+				if len(alts) == 0 {
+					alts = []map[string]bool{{}}
+				}
+				okAll := true
 				var have []string
-				for f := range eq {
-					have = append(have, f)
+				for _, alt := range alts {
+					all := map[string]bool{}
+					for f := range eq {
+						all[f] = true
+					}
+					for f := range alt {
+						all[f] = true
+					}
+					if !(all["Abpos"] && all["Bbpos"]) && !(all["Aepos"] && all["Bepos"]) {
+						okAll = false
+						have = nil
+						for f := range all {
+							have = append(have, f)
+						}
+						sort.Strings(have)
+					}
 				}
-				c.bad(rule, key, st.Pos(), fmt.Sprintf("a hit is marked as a duplicate (Score = -1) without both coordinates of its start (Abpos, Bbpos) or of its end (Aepos, Bepos) having been found equal to the kept hit's on every path (established: %v): hits that share a position in one sequence only — one element aligned to two copies — are thrown away", have))
+				if okAll {
+					c.ok(rule, key, st.Pos(), "a hit is discarded only when it starts (or ends) at the same point as the kept one in both sequences")
+				} else {
+					c.bad(rule, key, st.Pos(), fmt.Sprintf("a hit is marked as a duplicate (Score = -1) without both coordinates of its start (Abpos, Bbpos) or of its end (Aepos, Bepos) having been found equal to the kept hit's on every path (established: %v): hits that share a position in one sequence only — one element aligned to two copies — are thrown away", have))
+				}
 			}
 		}
 	}
@@ -860,9 +970,44 @@ func ruleFlushRange(c *Ctx, rule string) {
 	}
 	env := &linEnv{forms: map[*ssa.Parameter]lin{}, names: map[*ssa.Parameter]string{}, alias: alias}
 	last := linAtom("Qlen").add(linAtom("k"), -1)
+	// the end-of-scan work may have been moved into a private helper (retireAll(last, width)): analyse the
+	// helper with its parameters bound to what Filter passes
+	body := fn
+	hasCall := func(f *ssa.Function, callee *ssa.Function) bool {
+		for _, b := range f.Blocks {
+			for _, ins := range b.Instrs {
+				if call, ok := ins.(*ssa.Call); ok && call.Call.StaticCallee() == callee {
+					return true
+				}
+			}
+		}
+		return false
+	}
+	if !hasCall(fn, tubeEnd) {
+		for _, b := range fn.Blocks {
+			for _, ins := range b.Instrs {
+				call, ok := ins.(*ssa.Call)
+				if !ok {
+					continue
+				}
+				g := call.Call.StaticCallee()
+				if g == nil || g.Pkg != fn.Pkg || g.Blocks == nil || !hasCall(g, tubeEnd) || len(g.Params) != len(call.Call.Args) {
+					continue
+				}
+				for i, prm := range g.Params {
+					if isIntegral(prm.Type()) {
+						env.forms[prm] = linOf(call.Call.Args[i], env)
+					}
+					env.names[prm] = symName(call.Call.Args[i], env)
+				}
+				body = g
+				c.Funcs[funcName(g)] = true
+			}
+		}
+	}
 	// (a) the final tubeEnd
 	n := 0
-	for _, b := range fn.Blocks {
+	for _, b := range body.Blocks {
 		for _, ins := range b.Instrs {
 			call, ok := ins.(*ssa.Call)
 			if !ok || call.Call.StaticCallee() != tubeEnd {
@@ -883,7 +1028,7 @@ func ruleFlushRange(c *Ctx, rule string) {
 	}
 	// (b) the flush loop: tubeFlush(i) for i from tubeIndex(diagFrom) (clamped at 0) to tubeIndex(diagTo)
 	var fl *ssa.Call
-	for _, b := range fn.Blocks {
+	for _, b := range body.Blocks {
 		for _, ins := range b.Instrs {
 			if call, ok := ins.(*ssa.Call); ok && call.Call.StaticCallee() == flush {
 				fl = call
